@@ -14,7 +14,7 @@ CASE_TIMEOUT = 300.0
 
 def gen_cases(tier, seed):
     fams = ["cpu-mix", "cpu-mix", "cpu-mix", "exact-dag", "exact-chain", "approx-tail", "alias-stress", "hostile"]
-    cases = campaign.gen_cases(tier, seed, 11, 420, 10000, families=fams, extra=[("shape-ops", 24, 500), ("approx-tail2", 12, 300)])
+    cases = campaign.gen_cases(tier, seed, 11, 420, 10000, families=fams, extra=[("shape-ops", 24, 500), ("approx-tail2", 12, 300), ("grouped-conv", 8, 200)])
     # every builtin operator of the hostile generator's lists (33 unary, 21 binary; each with its own options table type) once as a CPU-resident
     # float32 instance: the writer's operator -> options-table mapping is walked entry by entry, not sampled
     from vv import hostile
